@@ -47,8 +47,8 @@ P = {
             "It is the canonical LR(1) collection merged by core (C17_is_lalr1). "
             "Partial: 'attached file = validated input' and, independently, the isomorphism with a separately written LALR(1) construction are checked on every conflicting grammar of the run against the independent LALR(1) construction and the model.",
             "§6.2, §7 C11", "conflict-payload theorem + exact attached automaton + LALR(1) isomorphism oracle"),
-    "C12": ("proof", "Theorems: the attribute token is exactly the source slice the scanner specification delimits with a bracket stack (via C08_tokenize_eq_spec); every emitted type item carries exactly its declaration's attribute texts, in order (C12_emit); render prints them one per line directly before the item. "
-            "Partial: order preservation through cst_to_ast is compared, not proved; verbatim occurrence is checked on the emitted text for attributes with non-ASCII text and nested brackets.",
+    "C12": ("proof", "Theorems: the attribute token is exactly the source slice the scanner specification delimits with a bracket stack (via C08_tokenize_eq_spec); every emitted type item carries exactly its declaration's attribute texts, in order (C12_emit); render prints them one per line directly before the item; cst_to_ast keeps every attribute token, in order, on its own declaration (C12_order, from C09_flatten); the attribute's text is the source slice at its position (C08_positions). "
+            "The rendering step (one attribute per line, immediately before the item, nowhere else) is tied by byte equality with the model and verbatim occurrence is checked on the emitted text for attributes with non-ASCII text and nested brackets.",
             "§7 C12", "tokenizer theorem + structure theorem + verbatim check on emitted text"),
     "C13": ("proof", "Theorems: the type string stored for a terminal is the concatenation of the tokens of the payload type as written — every path segment, `::`, `<`, `>`, `(`, `)` verbatim and `, ` per comma, any nesting depth (C13_type_tokens); the AST's tokens are the user's tokens in order (C13_type_order, from cst_to_ast order preservation); terminal enum variants and try_into_* methods carry the validated type string of that terminal (C13_use_sites). "
             "Partial: field use sites go through get_type in the text emitter, which is tied by the correspondence: every use site in the emitted text is re-tokenised and compared with the declaration (types nested to depth 5, near-duplicate terminal names).",
@@ -59,8 +59,8 @@ P = {
     "C15": ("proof", "Full for the model: for all texts get_grammar_hash = remainder of the first `// @sha256 ` line inside the leading `//` block, else None (C15_spec); for every emitted module get_grammar_hash(render m) = the digest in the header (C15_roundtrip) and the build-script freshness test succeeds iff the digests are equal (C15_fresh). "
             "SHA-256 itself is a parameter: the real header is compared with hashlib on every generated output.",
             "§7 C15", "specification + round-trip theorems + hashlib"),
-    "C16": ("proof", "Theorems: tokenize = Spec.scan (C08), and the scanner skips a White_Space character without producing a token (C16_skip_whitespace). "
-            "Partial: comment skipping as a separate lemma and the downstream relabelling lemma are not theorems; every base file is compared with random re-layouts (all 25 White_Space characters, CR/LF, comments) modulo digest and position→token-index map.",
+    "C16": ("proof", "Theorems: tokenize = Spec.scan (C08), and the scanner specification skips a White_Space character (any of the 25) and a `//` comment up to and including its newline, or up to the end of the input, without producing a token (C16_skip_whitespace, C16_skip_comment, C16_trailing_comment). "
+            "Partial: that the later stages depend on token positions only through error positions (the relabelling lemma) is not a theorem; every base file is compared with random re-layouts (all 25 White_Space characters, CR/LF, comments) modulo digest and position→token-index map.",
             "§7 C16", "scanner theorems + re-layout differential"),
     "C17": ("proof", "Theorems, for every validated file for which the generator stages succeed: the item sets of the generated automaton, lookaheads included, are exactly the least fixed point of the LALR(1) propagation rules over its transition graph — augmented initial item with end of input; [B → ·γ, b] for every b ∈ FIRST(β a) in the state of [A → α·Bβ, a]; the dot moved along transitions, contributions of all predecessor states united (C17_items_exact); no two states have the same core and transitions are functional (C17_one_state_per_core); an ACTION cell is non-error iff an item of its state demands it there (reduce exactly on the item's lookaheads, accept on end of input, shift to the transition target), GOTO cells are exactly the nonterminal transitions, Err/None elsewhere (C17_cells, C17_empty_table). The FIRST map used by the rules is proved closed under the FIRST equations (complete) and sound (every terminal in FIRST(B) begins a sentential form derived from B; nullable marks are true). "
             "That is the textbook definition: the generated automaton is the canonical LR(1) collection merged by core — every canonical state lies inside exactly one machine state with the same cores, every item of a machine state (lookahead included) lies in a canonical state with that core, every machine state merges at least one canonical state (C17_is_lalr1, Proofs/Canonical). "
